@@ -107,7 +107,7 @@ LEAVES = ['none', 'probe', 'getconf_scoped', 'ref_scoped', 'boom_scoped', 'getco
 
 def bound(tier):
   return ('sequential depth<=%d over %d valid + %d invalid entry forms x 2 exits x %d leaf actions; threads: see '
-          'coverage.thread_harnesses' % (3 if tier == 'quick' else 4, len(VALID), len(INVALID), len(LEAVES)))
+          'coverage.thread_harnesses' % (3, len(VALID), len(INVALID), len(LEAVES)))
 
 
 def model_enter(stack, entry, outer_objs):
@@ -355,7 +355,7 @@ def _seq_shard(args):
 
 def run(ctx):
   res = core.Result()
-  depth = 3 if ctx.quick else 4
+  depth = 3      # (both tiers: depth 4 multiplies the programs by the size of the entry menu)
   for r in ctx.pmap(_seq_shard, [(i, depth) for i in range(NSH)]):
     res.merge(r)
   from checks import c09_threads
